@@ -114,6 +114,38 @@ func setLinkCanon(t *types.Named) {
 		return
 	}
 	var pairs []string
+	// the ring kept as a two-slot array of the entry (e.link[ringNext] / e.link[ringPrev]) indexed by
+	// named constants: which slot is which is told by the constants' names
+	for i := 0; i < est.NumFields(); i++ {
+		f := est.Field(i)
+		at, ok := f.Type().Underlying().(*types.Array)
+		if !ok || at.Len() != 2 {
+			continue
+		}
+		if pt, ok := at.Elem().(*types.Pointer); !ok || namedOf(pt) == nil || namedOf(pt).Obj() != entry.Obj() {
+			continue
+		}
+		sc := entry.Obj().Pkg().Scope()
+		for _, nm := range sc.Names() {
+			c, ok := sc.Lookup(nm).(*types.Const)
+			if !ok {
+				continue
+			}
+			if b, ok := c.Type().Underlying().(*types.Basic); !ok || b.Info()&types.IsInteger == 0 {
+				continue
+			}
+			if v := c.Val().ExactString(); v != "0" && v != "1" {
+				continue
+			}
+			ln := strings.ToLower(nm)
+			switch {
+			case strings.Contains(ln, "next") || strings.Contains(ln, "succ") || strings.Contains(ln, "after"):
+				pairs = append(pairs, "."+f.Name()+"["+nm+"]", ".link_next")
+			case strings.Contains(ln, "prev") || strings.Contains(ln, "pred") || strings.Contains(ln, "before"):
+				pairs = append(pairs, "."+f.Name()+"["+nm+"]", ".link_prev")
+			}
+		}
+	}
 	for i := 0; i < est.NumFields(); i++ {
 		f := est.Field(i)
 		ft := f.Type()
